@@ -1,5 +1,6 @@
 """C07 attribution is single-use."""
 import threading
+import os
 import time
 import e2e
 import pipe
@@ -80,6 +81,58 @@ def exec_between_connections(chk, stack):
                       expected="second connection summarised under second-program", observed=seen[1])
 
 
+def many_open_connections(chk, stack, callers):
+    """150 client connections are open and idle when a redirected connection arrives: it is attributed like any other and its
+    record is used up, so the port starts with nothing afterwards"""
+    import socket
+    pid = callers.procs["curl"]["pid"]
+    idle = []
+    try:
+        for _ in range(150):
+            s_ = socket.socket()
+            s_.settimeout(2.0)
+            try:
+                s_.connect(e2e.PROXY)
+                idle.append(s_)
+            except OSError:
+                s_.close()
+        time.sleep(0.3)
+        stack.ctl("auditclear")
+        p = 47000 + os.getpid() % 900
+        stack.ctl("audit %d 0 %d 1 %s %d" % (p, pid, e2e.IMDS[0], e2e.IMDS[1]))
+        first = second = "connect-failed"
+        try:
+            c = e2e.ClientConn(p, 6.0)
+            first, _, _ = observe_ctx(stack, c, "many-1")
+            c.close(rst=True)
+        except OSError:
+            pass
+        time.sleep(0.1)
+        ports = stack.ctl("ports")
+        try:
+            c = e2e.ClientConn(p, 6.0)
+            second, _, _ = observe_ctx(stack, c, "many-2")
+            c.close(rst=True)
+        except OSError:
+            pass
+        chk.case(nontrivial_key=("many-open", len(idle), first, second))
+        chk.count("many_open_connections_stage")
+        d = {"idle_connections_open": len(idle), "attributed_connection": first, "records_left_afterwards": ports, "direct_connection_from_the_same_port": second}
+        if first != "A 1 %s %d" % e2e.IMDS:
+            chk.disagreement("attribution", d, "A 1 %s %d" % e2e.IMDS, first)
+        if second.startswith("A") or second.startswith("other:"):
+            chk.violation("a connection without a fresh kernel record was served with an identity", d, expected="U", observed=second)
+        elif ports != "-":
+            chk.violation("audit records left behind after all connections were accepted", d, expected="-", observed=ports)
+    finally:
+        for s_ in idle:
+            try:
+                s_.close()
+            except OSError:
+                pass
+        time.sleep(0.2)
+
+
 def user_per_connection(chk, stack, callers):
     """the user a record names is that connection's user, whichever users other connections resolved before it"""
     names = {uid: u["name"] for uid, u in callers.users.items()}
@@ -134,7 +187,7 @@ def run(chk):
             nops = rng.rand_range(4, 14)
             cid = 0
             for _ in range(nops):
-                kind = rng.pick(["attributed", "attributed", "direct", "reuse", "reuse_fresh", "keepalive", "stale_record", "dead_host"])
+                kind = rng.pick(["attributed", "attributed", "direct", "reuse", "reuse_fresh", "keepalive", "stale_record", "dead_host", "silent", "silent"])
                 p = rng.pick(ports)
                 if p in live:
                     live.pop(p).close(rst=True)
@@ -143,6 +196,27 @@ def run(chk):
                 elev = rng.below(2)
                 dest = rng.pick(DESTS) if kind != "dead_host" else DEAD
                 cid += 1
+                if kind == "silent":
+                    # a redirected connection that is closed again at once, without a byte: its record is used up all the same, so a
+                    # later connection from that port (the "reuse" kinds) starts with nothing
+                    stack.ctl("audit %d %d %d %d %s %d" % (p, 0 if elev else 1000, pid, elev, dest[0], dest[1]))
+                    model_ops.append(f"attr record {p} {elev} {hx(dest[0])} {dest[1]}")
+                    try:
+                        conn = e2e.ClientConn(p, 6.0)
+                    except OSError as e:
+                        model_ops.append(f"attr accept {p} {p}")
+                        model_ops.append(f"attr close {p}")
+                        continue
+                    conn.close()                       # FIN, nothing sent
+                    model_ops.append(f"attr accept {p} {p}")
+                    model_ops.append(f"attr close {p}")
+                    time.sleep(0.08)
+                    got_ports = stack.ctl("ports")
+                    model_ops.append("attr ports")
+                    expect_idx.append((len(model_ops) - 1, got_ports, f"ports after silent@{p}"))
+                    hist_desc.append(f"silent@{p} elev={elev}")
+                    chk.count("op_silent")
+                    continue
                 if kind in ("attributed", "reuse_fresh", "keepalive", "stale_record", "dead_host"):
                     stack.ctl("audit %d %d %d %d %s %d" % (p, 0 if elev else 1000, pid, elev, dest[0], dest[1]))
                     model_ops.append(f"attr record {p} {elev} {hx(dest[0])} {dest[1]}")
@@ -275,6 +349,7 @@ def run(chk):
                 chk.violation("audit records left behind after all connections were accepted", {"round": rd}, expected="-", observed=left)
         exec_between_connections(chk, stack)
         user_per_connection(chk, stack, callers)
+        many_open_connections(chk, stack, callers)
     finally:
         stack.close()
     chk.coverage["rule"] = ("histories of 4-14 connections over 4 source ports: attributed, direct, immediate port reuse without/with a fresh "
